@@ -109,6 +109,13 @@ def _run(pid, tier, classes, with_faults):
         if rc.violation is None:
             raise vlib.Inconclusive("ClientImpl ctxclose: no violation (vacuity guard failed)")
         ck.cov["tlc_runs"].append({"cfg": "ClientImpl_ctxclose.cfg", "expected_violation": rc.violation})
+    if not with_faults:
+        # the connection's read deadline register: only the reader arms it (a call's deadline cannot desynchronise the stream)
+        for cfg, expect in (("ConnReadDeadline.cfg", None), ("ConnReadDeadline_slip.cfg", "NoDesync")):
+            rr = tlc("stack", "ConnReadDeadline", cfg, workers=1, timeout=300)
+            if (expect is None and not rr.ok) or (expect is not None and rr.violation != expect):
+                raise vlib.Inconclusive("ConnReadDeadline %s: expected %s, TLC says %s" % (cfg, expect or "no violation", rr.violation))
+            ck.cov["tlc_runs"].append({"cfg": cfg, "expected_violation": expect, **rr.summary()})
     behs = simulate(150 if q else 2000, 40)
     scs = [to_scenario("sim-%d" % i, b, with_faults, 1 if q else 2) for i, b in enumerate(behs)]
     if with_faults and ra.trace_json:
